@@ -287,8 +287,9 @@ def shared_nodes(orig, new):
 MUT_BAG_KEY = "pipeline.signal_transfer.mut.arguments.bag"
 
 
-def gen_case(rng, mode=None, sweep_bag=None, seeded=None):
-    case = c05.gen_case(rng, mode=mode, flavour=rng.choice(["plain", "fine", "vectors", "two_models_same_arg"]), max_runs=8)
+def gen_case(rng, mode=None, sweep_bag=None, seeded=None, flavour=None):
+    case = c05.gen_case(rng, mode=mode, flavour=flavour or rng.choice(["plain", "fine", "vectors", "two_models_same_arg"]),
+                        max_runs=8)
     case["memory_seen"] = rng.choice([0, 0, 3, 7])          # what the caller's detector already remembers
     case["stateful"] = rng.sample(["memory", "mutate"], rng.choice([1, 2]))
     case["bag"] = [rng.randrange(9) for _ in range(rng.choice([0, 2, 3]))]
@@ -763,6 +764,58 @@ def check_lazy_edit(ck, case, rng):
                      {"case": case, "lazy_edit": True, "got": got[:4], "want": want[:4]})
 
 
+# ------------------------------------------------------------------ a caller's detector that already holds data
+def check_detector_contents(ck, rng, parallel):
+    """the caller's detector already holds frames (an MKID with a phase frame, pixel / signal frames set by an earlier
+    exposure): after an observation it must still hold exactly those contents"""
+    import dask
+    import numpy as np
+    import pyx
+    import pyxel
+    from pyxel.observation import Observation, ParameterValues
+
+    kind = rng.choice(["MKID", "MKID", "CCD"])
+    det = pyx.make_detector(kind, 3, 4)
+    frames = {}
+    for name in (["phase"] if kind == "MKID" else []) + ["pixel", "signal"]:
+        arr = np.array([[float(rng.randrange(1, 99)) for _ in range(4)] for _ in range(3)])
+        getattr(det, name).array = arr
+        frames[name] = arr.copy()
+    pipe = pyx.make_pipeline({"photon_collection": [{"name": "p", "func": "obsprobes.stamp", "arguments": {"slot": 0, "a": 1}}]})
+    mode = rng.choice(["product", "sequential"])
+    obs = Observation(parameters=[ParameterValues(key="pipeline.photon_collection.p.arguments.a", values=[3, 4, 5])],
+                      mode=mode, with_dask=parallel)
+    case = {"detector_contents": {"kind": kind, "mode": mode}}
+    tmp = tempfile.mkdtemp(prefix="verif-c06-cont-")
+    cwd = os.getcwd()
+    try:
+        os.chdir(tmp)
+        try:
+            with dask.config.set(scheduler="synchronous"):
+                dt = pyxel.run_mode(mode=obs, detector=det, pipeline=pipe, with_inherited_coords=True)
+                c05.find_bucket(dt)["pixel"].compute()
+        except common.InfraError:
+            raise
+        except Exception as e:  # noqa: BLE001
+            ck.count("detector-contents:observation-error:" + common.err_kind(e))
+    finally:
+        os.chdir(cwd)
+        shutil.rmtree(tmp, ignore_errors=True)
+    ck.case({"case": case, "parallel": parallel}, nontrivial=True, stream="detector-contents")
+    ck.count(f"detector-contents:{kind}:{'dask' if parallel else 'seq'}")
+    for name, want in frames.items():
+        try:
+            got = np.asarray(getattr(det, name).array, dtype=float)
+        except Exception as e:  # noqa: BLE001
+            got = None
+        if got is None or got.shape != want.shape or not np.array_equal(got, want):
+            ck.violation(f"C06:caller-detector-contents-changed:{'dask' if parallel else 'seq'}",
+                         f"the caller's {kind} detector held a {name} frame before run_mode; afterwards it holds "
+                         f"{'nothing' if got is None else 'other values (first pixel %r, was %r)' % (float(got.flat[0]), float(want.flat[0]))}",
+                         {"case": case, "parallel": parallel})
+            return
+
+
 # ------------------------------------------------------------------ state outside the copied processor
 def check_load_image(ck, rng, parallel):
     """pipelines with the built-in `load_image` (cached file read, scale ≠ 1): every run of two successive observations
@@ -974,7 +1027,11 @@ def body(ck: common.Check):
                 break
             c = gen_case(rng, mode=mode, sweep_bag=True if n == 1 else False, seeded=(n in (0, 2)))
         cases.append(c)
-    for _ in range(4 if quick else 180):
+    # same-named swept parameters with another parameter declared between them (the dask path zips names with values)
+    c = gen_case(rng, mode="product", sweep_bag=False, seeded=False, flavour="two_models_same_arg")
+    c05.interleave_same_name(c, rng)
+    cases.append(c)
+    for _ in range(3 if quick else 180):
         cases.append(gen_case(rng))
     for case in cases:
         judges += check_sep(ck, case, batch)
@@ -1001,6 +1058,8 @@ def body(ck: common.Check):
         check_readout_sweep(ck, rng, parallel=bool(i % 2))
     for i in range(2 if quick else 16):
         check_load_image(ck, rng, parallel=bool(i % 2))
+    for i in range(3 if quick else 16):
+        check_detector_contents(ck, rng, parallel=bool(i % 2))
     for _ in range(1 if quick else 6):
         check_calibration(ck, rng)
     ck.rule = ("configurations from C05's generator (three modes, vector values, colliding names) with probes that count "
@@ -1031,6 +1090,14 @@ def replay(path):
 
     rp = json.load(open(path))
     r = rp["replay"]
+    if "detector_contents" in (r.get("case") or {}):
+        import random
+
+        ck = common.Check("C06", "quick")
+        for seed in range(6):
+            check_detector_contents(ck, random.Random(seed), r.get("parallel", False))
+        print("REPRODUCED: " + ck.violations[0]["what"] if ck.violations else "not reproduced (property holds on this input)")
+        return 1 if ck.violations else 0
     if "load_image" in (r.get("case") or {}):
         import random
 
